@@ -25,6 +25,8 @@
 #include <qhttpengine/server.h>
 #include <qhttpengine/socket.h>
 #include <dirent.h>
+#include <memory>
+#include <vector>
 #include "families.h"
 using namespace QHttpEngine;
 
@@ -147,6 +149,22 @@ static Val run_life(const Val &c)
             cl->abort();
             break;
         case 3: delete server; server = nullptr; destroyed = true; break;
+        case 8: {
+            // [conn.at(3)] more clients connect now, each sends the first [cut] bytes of the request and stays; then all of them go away
+            int extra = conn.size() > 3 ? int(conn.at(3).asInt()) : 36;
+            std::vector<std::unique_ptr<QTcpSocket>> many;
+            for (int i = 0; i < extra; ++i) {
+                many.emplace_back(new QTcpSocket);
+                many.back()->connectToHost(QHostAddress::LocalHost, port);
+            }
+            pumpTill([&]() { for (auto &m : many) if (m->state() != QAbstractSocket::ConnectedState) return false; return true; }, 3000);
+            for (auto &m : many) { m->write(reqBytes.left(cut)); m->flush(); }
+            pumpMs(40);
+            for (auto &m : many) m->abort();
+            many.clear();
+            cl->abort();
+            break;
+        }
         case 7: {
             // the whole request; once the response has started the application replaces the server's handler and destroys the old one;
             // the transfer that is under way still completes (a response counts only when all announced bytes arrived)
